@@ -916,8 +916,15 @@ func (c *Cluster) scheduleNodeLoops(n *SNode) {
 // their timers tick.
 func (c *Cluster) AggregateAll(iter int) {
 	for _, n := range c.Nodes {
+		c.AggregateNode(n, iter)
+	}
+}
+
+// AggregateNode runs `iter` iterations of the work and space loops of every chain of one node.
+func (c *Cluster) AggregateNode(n *SNode, iter int) {
+	{
 		if !n.Alive {
-			continue
+			return
 		}
 		for _, id := range n.Node.SimChainIDs() {
 			if !n.Alive {
